@@ -37,6 +37,8 @@ def _rows(df):
 
 ANALYSES = {
     "optimize": lambda m: (lambda s: {"status": s.status, "objective": s.objective_value if s.status == "optimal" else None})(m.optimize()),
+    "optimize(objective_sense,raise_error)": lambda m: (lambda s: {"status": s.status, "objective": s.objective_value})(
+        m.optimize(objective_sense="minimize", raise_error=True)),
     "slim_optimize": lambda m: {"value": m.slim_optimize()},
     "fva": lambda m: _frame(flux_variability_analysis(m, processes=1)),
     "fva-fraction": lambda m: _frame(flux_variability_analysis(m, fraction_of_optimum=0.5, reaction_list=[m.reactions[1]], processes=1)),
@@ -65,7 +67,7 @@ ANALYSES = {
     "metabolite.summary": lambda m: {"n": len(m.metabolites[0].summary()._flux)},
     "reaction.summary": lambda m: {"n": len(m.reactions[1].summary()._flux)},
 }
-QUICK = ["optimize", "slim_optimize", "fva", "fva-fraction", "fva-pfba_factor", "find_blocked_reactions", "find_essential_genes",
+QUICK = ["optimize", "optimize(objective_sense,raise_error)", "slim_optimize", "fva", "fva-fraction", "fva-pfba_factor", "find_blocked_reactions", "find_essential_genes",
          "pfba", "linear-moma", "single_reaction_deletion", "single_gene_deletion", "double_gene_deletion",
          "single_gene_deletion(linear moma)", "loopless_solution", "assess", "assess(existing-demand)", "minimal_medium",
          "model.summary"]
